@@ -104,7 +104,7 @@ def witnesses(tier, seed):
     for t in ('f64', 'f32'):
         for strat in ('SimpleLUPiv', 'BlockLUPiv'):
             for enc in ('V', 'M'):
-                for n in ([1, 2, 3] if quick else [1, 2, 3, 4]):
+                for n in [1, 2, 3]:   # n = 4 exceeds the case-split budget (24 pivot orders x 4x4 Laurent polynomials): measured, dropped
                     if t == 'f32' and n > (2 if quick else 3):
                         continue
                     W.append(mk_pivoted(t, n, strat, enc))
